@@ -25,8 +25,11 @@ def State.init : State := { reg := Mgr.init, op := Mgr.init, sb := none, lastPar
 def shifted (sb : SystemBounds) (power : Option Rat) : SystemBounds :=
   match power with
   | none => sb
-  | some t => { incl := sb.incl.map (fun b => { lower := b.lower - t, upper := b.upper - t }),
-                excl := sb.excl }
+  | some t =>
+    { incl := sb.incl.map (fun b =>
+        { lower := Extracted.Proposal.shiftedLower b.lower b.upper t,   -- regenerated from `_power_managing_actor.py`
+          upper := Extracted.Proposal.shiftedUpper b.lower b.upper t }),
+      excl := sb.excl }
 
 /-- The sum sent to the power distributor, from the two stored targets. -/
 def combine (opT regT : Option Rat) : Option Rat :=
@@ -82,7 +85,7 @@ inductive Event where
   | drop (now : Rat)
 deriving Repr
 
-def maxAge : Rat := 60
+def maxAge : Rat := Extracted.Proposal.maxProposalAgeSec   -- regenerated from `_power_managing_actor.py`
 
 def noBounds : SystemBounds := { incl := none, excl := none }
 
